@@ -326,7 +326,11 @@ class Climate(Device):
         self._setpoint_shift.set(validated_offset)
         # broadcast new target temperature and set internally
         if self.target_temperature.writable and base_temperature is not None:
-            self.target_temperature.set(base_temperature + validated_offset)
+            # the shift as the datapoint can represent it (eg. whole steps of DPT 6.010)
+            sent_offset = self._setpoint_shift.from_knx(
+                self._setpoint_shift.to_knx(validated_offset)
+            )
+            self.target_temperature.set(base_temperature + sent_offset)
 
     @property
     def target_temperature_max(self) -> float | None:
